@@ -118,6 +118,10 @@ def run_scenario(acc, sc):
                         feed("0", [(112, "1")])
                     elif idkind == "nonnumeric":
                         feed("0", [(112, "abc")])
+                    elif idkind == "wrong-latin1":
+                        feed("0", [(112, "12345\xe9")])  # a wrong id carrying a byte >= 0x80
+                    elif idkind == "wrong-twice":
+                        feed("0", [(112, "777"), (112, "778")])  # a Heartbeat carrying TestReqID twice, neither the right one
                     else:
                         feed("0", [])
                     state["answers"] += 1
@@ -245,7 +249,7 @@ def run_scenario(acc, sc):
                     bad("silent/no-testrequest", "peer only answers TestRequests but none was ever written")
                 elif not (hb - 1 - eps < trs[0][0] - t0 <= hb + 1 + eps):
                     bad("silent/testrequest-timing", f"first TestRequest {trs[0][0] - t0:.2f} s after the last inbound frame")
-            elif idkind in ("wrong", "wrong-low", "wrong-one", "nonnumeric") and d <= 2 * hb - 2 and trs:
+            elif idkind in ("wrong", "wrong-low", "wrong-one", "nonnumeric", "wrong-latin1", "wrong-twice") and d <= 2 * hb - 2 and trs:
                 t_ans = trs[0][0] + d
                 if t_disc is None:
                     bad(f"wrong-id/not-disconnected/{idkind}", f"Heartbeat with a {idkind} TestReqID at t0+{t_ans - t0:.2f}: endpoint still {ep.connection_state.name}")
@@ -319,7 +323,7 @@ script = st.one_of(
     st.tuples(st.just("silent")),
     st.tuples(st.just("periodic"), st.sampled_from([0.3, 0.6, 0.9, 1.0, 1.1, 1.7]), st.sampled_from(["0", "D"])),
     st.tuples(st.just("burst"), st.integers(1, 5), st.sampled_from([0.5, 1.0, 2.5])),
-    st.tuples(st.just("answer"), st.sampled_from([0.0, 0.1, 0.5, 0.9, 1.0, 1.5, 1.9, 2.2]), st.sampled_from(["right", "right", "wrong", "wrong-low", "wrong-one", "nonnumeric", "missing"])),
+    st.tuples(st.just("answer"), st.sampled_from([0.0, 0.1, 0.5, 0.9, 1.0, 1.5, 1.9, 2.2]), st.sampled_from(["right", "right", "wrong", "wrong-low", "wrong-one", "nonnumeric", "missing", "wrong-latin1", "wrong-twice"])),
     st.tuples(st.just("peer-testreq"), st.sampled_from([0.3, 0.6, 0.9, 1.7])),
     st.tuples(st.just("answer"), st.sampled_from([0.5, 0.9, 1.2, 1.5, 1.9]), st.just("right"), st.sampled_from([0.05, 0.3, 0.6, 1.0])),
     st.tuples(st.just("answer"), st.sampled_from([0.0, 0.5, 0.9, 1.5]), st.just("right"), st.none(), st.just(True)),
@@ -341,7 +345,7 @@ def grid(acc, role):
     """Seed-independent grid: every script kind x a ladder of intervals x a few phases."""
     for hb in (1, 2, 3, 5, 30):
         for phase in (0.0, 0.37, 0.99):
-            for sc in ([("silent",)] + [("periodic", f, "0") for f in (0.3, 0.9, 1.1)] + [("answer", d, k) for d in (0.0, 0.9, 1.9) for k in ("right", "wrong", "wrong-low", "missing")]
+            for sc in ([("silent",)] + [("periodic", f, "0") for f in (0.3, 0.9, 1.1)] + [("answer", d, k) for d in (0.0, 0.9, 1.9) for k in ("right", "wrong", "wrong-low", "missing", "wrong-latin1", "wrong-twice")]
                        + [("peer-testreq", 0.6)] + [("burst", 3, 1.0)] + [("answer", 1.5, "right", 0.3), ("answer", 1.9, "right", 0.6)]
                        + [("answer", 0.5, "right", None, True), ("peer-testreq", 0.6, True), ("slow-replay", 6, 0.5)]
                        + [("answer", 0.1, "previous"), ("answer-then-die", 0.0, 1), ("answer-then-die", 0.1, 2)]):
